@@ -19,9 +19,9 @@ u16 UF_F2H(f32);
    obligation is purely "same operation applied to the same operands" (a float multiplier/divider miter does not
    finish in SAT); operand order: both orders accepted for the commutative ones */
 #if defined(__CPROVER__) && defined(UF_ARITH)
-#define OP_add(a, b) __CPROVER_uninterpreted_fadd_float(a, b)
+#define OP_add(a, b) verif_uf_fadd_float(a, b)
 #define OP_sub(a, b) __CPROVER_uninterpreted_fsub_float(a, b)
-#define OP_mul(a, b) __CPROVER_uninterpreted_fmul_float(a, b)
+#define OP_mul(a, b) verif_uf_fmul_float(a, b)
 #define OP_div(a, b) __CPROVER_uninterpreted_fdiv_float(a, b)
 #else
 #define OP_add(a, b) ((a) + (b))
